@@ -105,7 +105,8 @@ def gemini_case(case):
 
 
 def finite_case(case):
-    name, gemini, solver, family, K, bs, mode, seed = case
+    name, gemini, solver, family, K, bs, mode, seed = case[:8]
+    route = case[8] if len(case) > 8 else "ctor"
     X = make_data(family, seed)
     n = len(X)
     spec = {"random_state": seed, "solver": solver}
@@ -119,6 +120,8 @@ def finite_case(case):
             spec["batch_size"] = bs
         if name in M.SPARSE:
             spec["alpha"] = 0.5
+    if route != "ctor":
+        spec["_route"] = route
     if "|" in str(gemini):                    # convenience MMD estimator with a non-default kernel
         spec["kernel"] = gemini.split("|")[1]
     model, y, _ = C.build(name, spec, X, seed)
@@ -195,6 +198,11 @@ def explorers(tier, seed):
                                     if not full and (solver == "sgd" or bs == 1 or K != (1 if FAMILIES.index(family) % 2 else 3)):
                                         continue
                                 cases.append((name, gemini, solver, family, K, bs, mode, seed))
+    for name in M.ESTIMATORS:
+        g0 = "mi" if name in M.GENERIC_GEMINI else "fixed"
+        for family in ("x1000", "all_rows_equal", "zero_column", "copies_x4"):
+            for K in (1, 3):
+                cases.append((name, g0, "adam" if name != "Kauri" else "-", family, K, None, "fit", seed, "used_set_params"))
     cg = [(ti, a, p_, n, t, seed) for ti in range(13) for a in ("generic", "copies", "all_equal", "x1000", "rank_one", "constant")
           for p_ in ("interior", "one_hot", "rows_equal", "near_uniform", "empty_cluster", "single_cluster") for n in (6, 20, 80)
           for t in range(8 if thorough else 4) if not (a in ("rank_one", "constant") and ti < 9)]
